@@ -98,6 +98,15 @@ def to_wikitext(
             parts.append(node.sarg)
             for x in node.children:
                 parts.append(recurse(x))
+            if node.definition is not None:
+                # Definition list item: "; term : definition", or the
+                # definition on a line of its own when the term ends its line
+                if parts[-1].endswith("\n"):
+                    parts.append(node.sarg[:-1] + ":")
+                else:
+                    parts.append(":")
+                for x in node.definition:
+                    parts.append(recurse(x))
         elif kind == NodeKind.PRE:
             parts.append("<pre>")
             parts.append(recurse(node.children))
